@@ -201,9 +201,16 @@ pub fn run_part<P: Part>(p: &P, cfg: &Cfg) -> PartReport {
         errs: Vec<String>,
     }
     let accs: Mutex<Vec<Acc>> = Mutex::new(vec![]);
+    // crash / hang attribution: with HPKE_MC_PROGRESS_DIR set every worker records the case it is about to
+    // run, so that the driver can tell which case was in flight if the process aborts or never returns
+    let progress_dir = std::env::var("HPKE_MC_PROGRESS_DIR").ok();
+    let part_name = p.name();
+    let worker_id = AtomicUsize::new(0);
     std::thread::scope(|sc| {
         for _ in 0..cfg.threads.max(1) {
             sc.spawn(|| {
+                let wid = worker_id.fetch_add(1, Ordering::Relaxed);
+                let progress_file = progress_dir.as_ref().map(|d| std::path::Path::new(d).join(format!("inflight.{}.json", wid)));
                 let mut a = Acc {
                     run: 0,
                     transitions: 0,
@@ -226,6 +233,10 @@ pub fn run_part<P: Part>(p: &P, cfg: &Cfg) -> PartReport {
                         break;
                     }
                     let c = &cases[i];
+                    if let Some(f) = &progress_file {
+                        let body = json!({"property": cfg.prop, "part": part_name, "tier": cfg.tier.name(), "seed": cfg.seed, "case": c, "mismatches": [{"key": "", "msg": "in flight when the engine died or stopped responding"}]});
+                        let _ = std::fs::write(f, body.to_string());
+                    }
                     let r = std::panic::catch_unwind(std::panic::AssertUnwindSafe(|| p.run(cfg, c)));
                     let out = match r {
                         Ok(o) => o,
@@ -261,6 +272,9 @@ pub fn run_part<P: Part>(p: &P, cfg: &Cfg) -> PartReport {
                     } else {
                         a.violations.push((i, out.mismatches));
                     }
+                }
+                if let Some(f) = &progress_file {
+                    let _ = std::fs::remove_file(f);
                 }
                 accs.lock().unwrap().push(a);
             });
